@@ -200,3 +200,25 @@ def resolve_upvars(ctx, clo, t, depth=0):
                         return r
         return t
     return tuple(resolve_upvars(ctx, clo, x, depth) if isinstance(x, tuple) else x for x in t)
+
+
+def range_bounds(t):
+    """(lo, hi) of a half-open integer range denoted by the source tree `t` (`a..b`, `a..=b`, RangeInclusive::new(a, b)); a bound
+    is an int when constant, else its core tree; None when `t` is not a range"""
+    from analysis.sym import peel as _peel
+    t = _peel(t)
+
+    def val(x):
+        c = _core(x)
+        return c[2] if c[0] == 'const' and len(c) > 2 and isinstance(c[2], int) else c
+    if isinstance(t, tuple) and t and t[0] == 'agg' and t[2].endswith('Range::Range') and len(t[3]) == 2:
+        return val(t[3][0]), val(t[3][1])
+    incl = None
+    if isinstance(t, tuple) and t and t[0] == 'agg' and t[2].endswith('RangeInclusive::RangeInclusive') and len(t[3]) >= 2:
+        incl = t[3][0], t[3][1]
+    if isinstance(t, tuple) and t and t[0] == 'call' and t[1].endswith('RangeInclusive::new') and len(t[2]) == 2:
+        incl = t[2][0], t[2][1]
+    if incl is not None:
+        lo, hi = val(incl[0]), val(incl[1])
+        return lo, (hi + 1 if isinstance(hi, int) else ('bin', 'Add', hi, ('const', '1', 1)))
+    return None
